@@ -35,6 +35,7 @@ FieldChoices ==
     si |-> {Node("set", "", <<>>), Node("set", "", <<I("1"), I("-1")>>), Node("set", "", <<I("9007199254740992"), I("9007199254740993")>>), NoneT},
     ss |-> {Node("set", "", <<Sx("a"), Sx("multibyte")>>)},
     se |-> {Node("set", "", <<En("Color.RED")>>), Node("set", "", <<>>)},
+    sn |-> {Node("set", "", <<Inner("1", "a"), Inner("0", ""), Inner("-1", "multibyte")>>), Node("set", "", <<Inner("1", "a")>>), Node("set", "", <<>>)},   \* objects have no order among themselves
     di |-> {Node("dict", "", <<>>), Node("dict", "", <<KVt(I("1"), Sx("a")), KVt(I("-1"), Sx(""))>>), NoneT,
             \* keys a double cannot hold (2^53 + 1, 2^63 - 1, below -2^53): JSON object keys travel as strings and must come back as the same ints
             Node("dict", "", <<KVt(I("9007199254740992"), Sx("a")), KVt(I("9007199254740993"), Sx("multibyte")), KVt(I("9223372036854775807"), Sx("")), KVt(I("-9007199254740993"), Sx("a"))>>)},
